@@ -29,6 +29,14 @@ func H_C01_jws_verify() {
 	rt.Assert(rt.Same(p0, env.Protected) && rt.Same(y0, env.Payload) && rt.Same(s0, env.Signature), "C01.jws.envelope.unchanged")
 	if err != nil {
 		rt.Assert(c == nil, "C01.jws.nil.on.error")
+		// conversely (C07): an envelope that meets the specification and carries a valid signature is accepted - if the
+		// content is extractable and the primitive answered "valid" for exactly (leaf key, table hash, protected.payload,
+		// signature), verification must not have failed
+		if len(vrfLogJ) > 0 { // only where the primitive was reached at all
+			if c0, cerr := e.Content(); cerr == nil && c0 != nil && len(chainRawJ) > 0 && !chainParseErrJ[0] {
+				rt.Assert(rt.Not(validAnswerFor(env)), "C07.jws.valid.signature.is.accepted")
+			}
+		}
 		return
 	}
 	checkAcceptedJWS(env, c)
@@ -85,4 +93,38 @@ func ecHalves(sg []byte, v vrfRecJ) bool {
 		}
 	}
 	return false
+}
+
+// validAnswerFor: did the primitive of the right family answer "valid" for this envelope's leaf key, declared hash,
+// signing string and signature?
+func validAnswerFor(env *jwsEnvelope) bool {
+	leaf := rt.Havoc[*x509.Certificate]("cert0")
+	h := theHeader()
+	if h == nil {
+		return false
+	}
+	row := jwsAlgRow(h.Algorithm)
+	kind, _ := rt.KeyInfo(leaf.PublicKey)
+	sg, ok := decodedOf(env.Signature)
+	if !ok {
+		return false
+	}
+	signingString := env.Protected + "." + env.Payload
+	held := false
+	for _, v := range vrfLogJ {
+		if !rt.Same(v.key, leaf.PublicKey) || !rt.Same(v.content, []byte(signingString)) {
+			continue
+		}
+		sigOK := false
+		switch v.family {
+		case "PS":
+			sigOK = rt.Same(v.sig, sg) && kind == rt.KindRSA
+		case "ES":
+			sigOK = v.r != nil && v.s != nil && kind == rt.KindEC && ecHalves(sg, v)
+		}
+		if sigOK {
+			held = rt.Or(held, rt.And(v.valid, v.hash == rt.HashRow(row)))
+		}
+	}
+	return held
 }
